@@ -101,12 +101,13 @@ func dotFamily(all bool, emit func(string)) {
 		for _, r := range fam2Operands {
 			emit(l + "." + r)
 			emit("(" + l + ").(" + r + ")")
-			emit("x = " + l + "." + r + ".z")
-			emit(l + "." + r + "(1)")
-			emit("-" + l + "." + r + " + 1")
+			emit("x = -" + l + "." + r + ".z(1) + 1")
 			emit("(" + l + ")[" + r + "]")
 			emit("(" + l + ")(" + r + ")")
 			if all {
+				emit("x = " + l + "." + r + ".z")
+				emit(l + "." + r + "(1)")
+				emit("-" + l + "." + r + " + 1")
 				emit(l + " . " + r)
 				emit(l + "." + r + "[1]")
 				emit(l + "[" + r + "]")
@@ -186,12 +187,12 @@ func nestedAdjacency(r *rng, quick bool, emit func(string)) {
 					continue
 				}
 				for _, blk := range fam2Blocks[1:] {
-					if quick && r.intn(19) != 0 {
+					if quick && r.intn(30) != 0 {
 						continue
 					}
 					emit(inBlock(blk, a+s+b))
 				}
-				if !quick || r.intn(4) == 0 {
+				if !quick || r.intn(6) == 0 {
 					emit(a + s + b + s + a)
 				}
 			}
